@@ -148,6 +148,32 @@ fn exec(regs: &mut Regs, cx: &mut Cx, op: &Op) -> (String, Vec<usize>, Vec<usize
                     ctl::mm(|| drop(old));
                     ("()".into(), vec![i, *dst], vec![])
                 }
+                #[cfg(feature = "serde")]
+                MapOp::Serde(dst) => {
+                    let enc = with_map!(&regs.m[i], x => ops::serde_rt::encode_map(&x.c));
+                    let Some((ann, ent, bytes)) = enc else {
+                        return ("[encode-error]".into(), vec![i, *dst], vec![]);
+                    };
+                    let c: Option<AnyMap> = match &regs.m[*dst] {
+                        AnyMap::C0(_) => ops::serde_rt::decode_map::<0>(&bytes).map(|m| AnyMap::C0(regs::Caged::new(m))),
+                        AnyMap::C1(_) => ops::serde_rt::decode_map::<1>(&bytes).map(|m| AnyMap::C1(regs::Caged::new(m))),
+                        AnyMap::C2(_) => ops::serde_rt::decode_map::<2>(&bytes).map(|m| AnyMap::C2(regs::Caged::new(m))),
+                        AnyMap::C3(_) => ops::serde_rt::decode_map::<3>(&bytes).map(|m| AnyMap::C3(regs::Caged::new(m))),
+                        AnyMap::C4(_) => ops::serde_rt::decode_map::<4>(&bytes).map(|m| AnyMap::C4(regs::Caged::new(m))),
+                        AnyMap::C6(_) => ops::serde_rt::decode_map::<6>(&bytes).map(|m| AnyMap::C6(regs::Caged::new(m))),
+                    };
+                    let st = match c {
+                        Some(c) => {
+                            let old = std::mem::replace(&mut regs.m[*dst], c);
+                            ctl::mm(|| drop(old));
+                            "ok"
+                        }
+                        None => "decode-error",
+                    };
+                    (format!("[{},{},{}]", ann, ent, st), vec![i, *dst], vec![])
+                }
+                #[cfg(not(feature = "serde"))]
+                MapOp::Serde(dst) => ("[unsupported]".into(), vec![i, *dst], vec![]),
                 MapOp::Eq(o) => {
                     let a = &regs.m[i];
                     let b = &regs.m[*o];
@@ -205,6 +231,32 @@ fn exec(regs: &mut Regs, cx: &mut Cx, op: &Op) -> (String, Vec<usize>, Vec<usize
                     ctl::mm(|| drop(old));
                     ("()".into(), vec![], vec![i])
                 }
+                #[cfg(feature = "serde")]
+                SetOp::Serde(dst) => {
+                    let enc = with_set!(&regs.s[i], x => ops::serde_rt::encode_set(&x.c));
+                    let Some((ann, ent, bytes)) = enc else {
+                        return ("[encode-error]".into(), vec![], vec![i, *dst]);
+                    };
+                    let c: Option<AnySet> = match &regs.s[*dst] {
+                        AnySet::C0(_) => ops::serde_rt::decode_set::<0>(&bytes).map(|m| AnySet::C0(regs::Caged::new(m))),
+                        AnySet::C1(_) => ops::serde_rt::decode_set::<1>(&bytes).map(|m| AnySet::C1(regs::Caged::new(m))),
+                        AnySet::C2(_) => ops::serde_rt::decode_set::<2>(&bytes).map(|m| AnySet::C2(regs::Caged::new(m))),
+                        AnySet::C3(_) => ops::serde_rt::decode_set::<3>(&bytes).map(|m| AnySet::C3(regs::Caged::new(m))),
+                        AnySet::C4(_) => ops::serde_rt::decode_set::<4>(&bytes).map(|m| AnySet::C4(regs::Caged::new(m))),
+                        AnySet::C6(_) => ops::serde_rt::decode_set::<6>(&bytes).map(|m| AnySet::C6(regs::Caged::new(m))),
+                    };
+                    let st = match c {
+                        Some(c) => {
+                            let old = std::mem::replace(&mut regs.s[*dst], c);
+                            ctl::mm(|| drop(old));
+                            "ok"
+                        }
+                        None => "decode-error",
+                    };
+                    (format!("[{},{},{}]", ann, ent, st), vec![], vec![i, *dst])
+                }
+                #[cfg(not(feature = "serde"))]
+                SetOp::Serde(dst) => ("[unsupported]".into(), vec![], vec![i, *dst]),
                 SetOp::Sub(o, dst) => {
                     let a = &regs.s[i];
                     let b = &regs.s[*o];
@@ -252,6 +304,8 @@ fn exec(regs: &mut Regs, cx: &mut Cx, op: &Op) -> (String, Vec<usize>, Vec<usize
 fn touched(op: &Op) -> (Vec<usize>, Vec<usize>) {
     match op {
         Op::Map(i, MapOp::CloneTo(d)) => (vec![*i, *d], vec![]),
+        Op::Map(i, MapOp::Serde(d)) => (vec![*i, *d], vec![]),
+        Op::Set(i, SetOp::Serde(d)) => (vec![], vec![*i, *d]),
         Op::Map(i, MapOp::Eq(o)) => (vec![*i, *o], vec![]),
         Op::Map(i, _) => (vec![*i], vec![]),
         Op::Set(i, SetOp::CloneTo(d)) => (vec![], vec![*i, *d]),
